@@ -371,13 +371,27 @@ impl GraphEngine {
     }
 
     pub fn search_vector(&self, query: &[f32], k: usize) -> Result<Vec<(InternalNodeId, f32)>> {
-        #[cfg(nervusdb_verif)]
-        let _vh12 = crate::verif::acquire("pager.w");
-        let mut pager = self.pager.write().unwrap();
-        #[cfg(nervusdb_verif)]
-        let _vh13 = crate::verif::acquire("vector_index");
-        let mut idx = self.vector_index.lock().unwrap();
-        idx.search(&mut *pager, query, k)
+        if k == 0 {
+            return Ok(Vec::new());
+        }
+        // All candidates of the base-layer search (at most ef_search), nearest first.
+        let candidates = {
+            #[cfg(nervusdb_verif)]
+            let _vh12 = crate::verif::acquire("pager.w");
+            let mut pager = self.pager.write().unwrap();
+            #[cfg(nervusdb_verif)]
+            let _vh13 = crate::verif::acquire("vector_index");
+            let mut idx = self.vector_index.lock().unwrap();
+            idx.search(&mut *pager, query, usize::MAX)?
+        };
+        // Deleting a node does not remove its vector from the index: leave deleted
+        // nodes out of the result (the index locks are released before the snapshot).
+        let snapshot = self.begin_read();
+        Ok(candidates
+            .into_iter()
+            .filter(|(id, _)| !snapshot.is_tombstoned_node(*id))
+            .take(k)
+            .collect())
     }
 
     pub fn scan_i2e_records(&self) -> Vec<I2eRecord> {
